@@ -171,7 +171,8 @@ fn redirected(tier: Tier) -> Vec<Option<NdiscRedirectedHeader<'static>>> {
     // header.payload_len = data.len(): the only shape the parser produces and the only one
     // `emit` accepts (it copies `data` into a slice of `payload_len` bytes)
     let mut v = vec![None];
-    for l in pick(tier, &[8usize, 3, 0, 40], 2) {
+    // 8+40+len is rounded up to the option's 8-octet unit: lengths around the alignment
+    for l in pick(tier, &[8usize, 3, 7, 9, 0, 40, 15, 16, 17], 4) {
         v.push(Some(NdiscRedirectedHeader { header: v6hdrs(Tier::Quick, l)[0], data: pat(l) }));
     }
     v
@@ -593,7 +594,7 @@ impl Rt for Ndisc {
         }
     }
     fn domain_doc() -> &'static str {
-        "lladdr in {None, Ethernet 6-byte, IEEE 802.15.4 extended 8-byte} (the two lengths RawHardwareAddress::parse knows); RouterSolicit{lladdr}; RouterAdvert{hop_limit(4) x flags(4 combinations) x router_lifetime {0,1,65535 s} x reachable_time {0,1,2^32-1 ms} x retrans_time {0,2^32-1 ms} x lladdr(3) x mtu {None,0,1500,2^32-1} x prefix_info {None, 3 values}}; NeighborSolicit{target(13) x lladdr}; NeighborAdvert{flags (8 combinations) x target x lladdr}; Redirect{target x dest(13) x lladdr x redirected_hdr {None, data length 0,3,8,40 with header.payload_len = data.len()}}; emitted through Icmpv6Packet without the checksum step (that step is covered by Icmpv6Repr)"
+        "lladdr in {None, Ethernet 6-byte, IEEE 802.15.4 extended 8-byte} (the two lengths RawHardwareAddress::parse knows); RouterSolicit{lladdr}; RouterAdvert{hop_limit(4) x flags(4 combinations) x router_lifetime {0,1,65535 s} x reachable_time {0,1,2^32-1 ms} x retrans_time {0,2^32-1 ms} x lladdr(3) x mtu {None,0,1500,2^32-1} x prefix_info {None, 3 values}}; NeighborSolicit{target(13) x lladdr}; NeighborAdvert{flags (8 combinations) x target x lladdr}; Redirect{target x dest(13) x lladdr x redirected_hdr {None, data length {0,3,7,8,9,15,16,17,40} (around the 8-octet alignment of the option) with header.payload_len = data.len()}}; emitted through Icmpv6Packet without the checksum step (that step is covered by Icmpv6Repr)"
     }
 }
 
@@ -627,7 +628,9 @@ impl Rt for NdOpt {
                 }
             }
         }
-        for l in pick(tier, &[0usize, 8, 3, 1, 40, 1200], 3) {
+        // around the 8-octet alignment (8k-1, 8k, 8k+1) and at the largest option the length
+        // octet admits: 8+40+1992 = 255*8
+        for l in pick(tier, &[0usize, 8, 7, 9, 1992, 3, 1, 40, 15, 16, 17, 1200, 1991, 1985], 5) {
             for h in v6hdrs(tier, l) {
                 v.push(NdiscOptionRepr::RedirectedHeader(NdiscRedirectedHeader { header: h, data: pat(l) }));
             }
@@ -683,7 +686,7 @@ impl Rt for NdOpt {
         }
     }
     fn domain_doc() -> &'static str {
-        "Source/TargetLinkLayerAddr (6- and 8-byte addresses); PrefixInformation{prefix_len {0,64,128,255} x flags(4) x valid_lifetime {0,1,2^32-1 s} x preferred_lifetime (same) x prefix(13)}; RedirectedHeader{embedded Ipv6Repr(27) x data length {0,1,3,8,40,1200}, header.payload_len = data.len()}; Mtu {0,1,2^31,2^32-1}; Unknown{type {0,6,14,255} x length {1,2,255} with data.len() = 8*length-2}"
+        "Source/TargetLinkLayerAddr (6- and 8-byte addresses); PrefixInformation{prefix_len {0,64,128,255} x flags(4) x valid_lifetime {0,1,2^32-1 s} x preferred_lifetime (same) x prefix(13)}; RedirectedHeader{embedded Ipv6Repr(27) x data length {0,1,3,7,8,9,15,16,17,40,1200,1985,1991,1992} (8k-1, 8k, 8k+1 around the option's 8-octet unit; 1992 = the largest the length octet admits), header.payload_len = data.len()}; Mtu {0,1,2^31,2^32-1}; Unknown{type {0,6,14,255} x length {1,2,255} with data.len() = 8*length-2}"
     }
 }
 
